@@ -1233,22 +1233,24 @@ instant_to_tstamp(echs_instant_t i)
 		31, 59, 90, 120, 151, 181,
 		212, 243, 273, 304, 334, 365
 	};
-	unsigned int nd = 0U;
+	/* years since 2001, negative before that */
+	const int yd = (int)i.y - 2001;
+	int nd = 0;
 	time_t t;
 
 	/* days from 2001-01-01 till day 0 of current year,
-	 * i.e. i.y-01-00 */
-	nd += 365U * (i.y - 2001U) + (i.y - 2001U) / 4U;
+	 * i.e. i.y-01-00, with a floor division for the leap days */
+	nd += 365 * yd + (yd >= 0 ? yd / 4 : -((3 - yd) / 4));
 	/* day-of-year */
 	nd += __mon_yday[i.m] + i.d + UNLIKELY(!(i.y % 4U) && i.m >= 3);
 
 	if (LIKELY(!echs_instant_all_day_p(i))) {
-		t = (((time_t)nd * 24U + i.H) * 60U + i.M) * 60U + i.S;
+		t = (((time_t)nd * 24 + i.H) * 60 + i.M) * 60 + i.S;
 	} else {
-		t = (time_t)nd * 86400UL;
+		t = (time_t)nd * 86400L;
 	}
 	/* calc number of seconds since unix epoch */
-	t += 11322/*days from unix epoch to our epoch*/ * 86400UL;
+	t += 11322/*days from unix epoch to our epoch*/ * 86400L;
 	return (double)t;
 }
 
